@@ -179,7 +179,10 @@ def main(argv):
             infra += ["[kani] " + x for x in kres["infra"]]
             for e in kres["failed"]:
                 e["engine"] = "kani/cbmc"
-                failed.append(e)
+                if prop in e["tags"]:
+                    failed.append(e)
+                else:
+                    other_failed.append(e)
             obligations += kres["checks"]
             discharged += kres["checks"] - kres["failed_checks"]
             solver_ms += int(kres["solver_s"] * 1000)
